@@ -243,6 +243,51 @@ swap_to_be(uint8_t *b, long n, int esz)
         }
 }
 
+/* where an SD or GR attribute is said to be stored: exactly the bytes of its value (big-endian in the file) */
+static void
+check_attr_location(const char *when, const char *api, const char *what, int index, const char *aname, int rc, int32 aoff, int32 alen, uint8 *val, int32 nt, int32 cnt,
+                    const uint8_t *bytes, long fsize)
+{
+    int esz = DFKNTsize(nt | DFNT_NATIVE);
+    swap_to_be(val, (long)cnt * esz, esz);
+    if (rc != 1 || aoff < 0 || alen != cnt * esz || (long)aoff + alen > fsize || memcmp(bytes + aoff, val, (size_t)alen))
+        viol("datainfo:attribute-location", "%s: %s(%s, attribute %d '%s') returns %d, offset %d length %d: not where the %d bytes of its value are stored", when, api, what, index,
+             aname, rc, (int)aoff, (int)alen, (int)(cnt * esz));
+    mc_count("attribute_locations_checked", 1);
+}
+static void
+sd_attr_locations(const char *when, int32 id, const char *what, int32 na, const uint8_t *bytes, long fsize)
+{
+    for (int a = 0; a < na; a++) {
+        char  an[H4_MAX_NC_NAME + 1] = "";
+        int32 ant = 0, acnt = 0, aoff = -1, alen = -1;
+        if (SDattrinfo(id, a, an, &ant, &acnt) == FAIL)
+            continue;
+        uint8 *av = calloc(1, (size_t)acnt * 8 + 8);
+        if (SDreadattr(id, a, av) != FAIL) {
+            int rc = SDgetattdatainfo(id, a, &aoff, &alen);
+            check_attr_location(when, "SDgetattdatainfo", what, a, an, rc, aoff, alen, av, ant, acnt, bytes, fsize);
+        }
+        free(av);
+    }
+}
+static void
+gr_attr_locations(const char *when, int32 id, const char *what, int32 na, const uint8_t *bytes, long fsize)
+{
+    for (int a = 0; a < na; a++) {
+        char  an[H4_MAX_GR_NAME + 1] = "";
+        int32 ant = 0, acnt = 0, aoff = -1, alen = -1;
+        if (GRattrinfo(id, a, an, &ant, &acnt) == FAIL)
+            continue;
+        uint8 *av = calloc(1, (size_t)acnt * 8 + 8);
+        if (GRgetattr(id, a, av) != FAIL) {
+            int rc = GRgetattdatainfo(id, a, &aoff, &alen);
+            check_attr_location(when, "GRgetattdatainfo", what, a, an, rc, aoff, alen, av, ant, acnt, bytes, fsize);
+        }
+        free(av);
+    }
+}
+
 /* the whole verification; the file is closed when this is called */
 static void
 verify_file(const char *when)
@@ -456,6 +501,7 @@ verify_file(const char *when)
                 char  nm[H4_MAX_GR_NAME + 1];
                 int32 nc, nt, il, dm[2], na;
                 GRgetiminfo(ri, nm, &nc, &nt, &il, dm, &na);
+                gr_attr_locations(when, ri, nm, na, bytes, fsize);
                 uint16 rref = GRidtoref(ri);
                 /* independent: vgroup (1965,rref) of class RI0.0 has a member with tag 302 (RI) */
                 const fc_dd *gd = fc_find(&fc, FC_TAG_VG, rref);
@@ -506,6 +552,8 @@ verify_file(const char *when)
                 GRendaccess(ri);
             }
         }
+        if (G != FAIL)
+            gr_attr_locations(when, G, "the GR file", nat, bytes, fsize);
         /* palette descriptors: GRgetpalinfo for every array size from 1 to one more than the number of palette descriptors
            (tags 201 IP8 and 301 LUT) the independent reader finds, exactly-sized heap arrays */
         if (G != FAIL) {
@@ -583,6 +631,7 @@ verify_file(const char *when)
         }
         else {
             SDfileinfo(S, &nds, &nat);
+            sd_attr_locations(when, S, "the SD file", nat, bytes, fsize);
             fid = Hopen(PATH, DFACC_READ, 0); /* for Hlength etc. in info callbacks */
             for (int k = 0; k < nds; k++) {
                 int32 sds = SDselect(S, k);
@@ -592,6 +641,13 @@ verify_file(const char *when)
                     if (sds != FAIL)
                         SDendaccess(sds);
                     continue;
+                }
+                sd_attr_locations(when, sds, nm, na, bytes, fsize);
+                for (int i = 0; i < rk; i++) {
+                    int32 dim = SDgetdimid(sds, i), dsz = 0, dnt = 0, dna = 0;
+                    char  dn[H4_MAX_NC_NAME + 1] = "";
+                    if (dim != FAIL && SDdiminfo(dim, dn, &dsz, &dnt, &dna) != FAIL)
+                        sd_attr_locations(when, dim, dn, dna, bytes, fsize);
                 }
                 /* independent: the dataset's vgroup (class Var0.0, same name) has a member with tag 702 (SD) */
                 const fc_dd *dd = NULL, *ndg = NULL;
@@ -1043,7 +1099,11 @@ apply(const mc_op *op)
                     pal[i] = (uint8)i;
                 GRwritelut(GRgetlutid(ri, 0), 3, DFNT_UINT8, MFGR_INTERLACE_PIXEL, 256, pal);
                 int32 av = 3;
+                int16 a2[2] = {41, 42};
                 GRsetattr(ri, "ra", DFNT_INT32, 1, &av);
+                GRsetattr(ri, "rb", DFNT_INT16, 2, a2);
+                a2[1] = 43;
+                GRsetattr(G, "gra", DFNT_INT16, 2, a2);
             }
             GRendaccess(ri);
             g_ngr++;
@@ -1092,9 +1152,18 @@ apply(const mc_op *op)
             rc = SDwritedata(s, st, NULL, cn, nt == DFNT_INT16 ? (VOIDP)v16 : (VOIDP)v32);
             int32 av = 9;
             if (a0 == 0) {
+                /* attributes with values of their own on the data set, a dimension and the file (the second ones tell an
+                   index slip from a right answer) */
+                int16   a2[3] = {21, 22, 23};
+                float32 fa   = 1.5f;
                 SDsetattr(s, "sa", DFNT_INT32, 1, &av);
+                SDsetattr(s, "sb", DFNT_INT16, 3, a2);
                 SDsetdimname(SDgetdimid(s, 0), "rows");
                 SDsetdimscale(SDgetdimid(s, 0), 3, DFNT_INT16, v16);
+                SDsetattr(SDgetdimid(s, 0), "da", DFNT_FLOAT32, 1, &fa);
+                a2[0] = 31;
+                SDsetattr(S, "ga", DFNT_INT16, 2, a2);
+                SDsetattr(S, "gb", DFNT_CHAR8, 5, "hello");
             }
             SDendaccess(s);
             g_nsd++;
